@@ -200,4 +200,15 @@ example : (do let bs ← enc { Generated.params with optI64NoneW := 2 } .optI64 
               pure (dec { Generated.params with optI64NoneW := 2 } .optI64 bs).res) =
     some (.error .format) := by decide
 
+/-- The number of entries *read* is modelled apart from the pre-allocation: a decoder that caps
+the read loop (`for _ in 0..min(len, c)`) is rejected by `paramsOk`, and indeed drops entries and
+leaves their bytes unread — here with a cap of 1 on a two-entry map. -/
+example : paramsOk { Generated.params with mapLoopCap := some 1 } = false := by decide
+example :
+    let P := { Generated.params with mapLoopCap := some 1 }
+    let h : Bytes := List.replicate 32 7
+    (do let bs ← enc P .mapU64Hash (.m [(5, h), (6, h)])
+        pure ((dec P .mapU64Hash bs).res.toOption.map (fun p => (p.1, p.2.length)))) =
+      some (some (.m [(5, h)], 40)) := by decide
+
 end RoutinatorModel
